@@ -6,7 +6,7 @@ from checks.decoder_common import run_property
 def jobs(tier):
     m = ("strict", "warn")
     from checks import c15
-    front = [(c15.unit_hex, (list(range(i, min(i + 16, 256))),)) for i in range(0, 256, 16)] + [(c15.unit_swtpm, ()), (c15.unit_hex_entry, ())]
+    front = [(c15.unit_hex, (list(range(i, min(i + 16, 256))),)) for i in range(0, 256, 16)] + [(c15.unit_swtpm, ()), (c15.unit_hex_entry, ()), (c15.unit_hex_entry, ("swtpm",))]
     front += [(c15.unit_wrapper, (w, k)) for w in ("hex", "swtpm") for k in ("opaque", "bytes", "bytearray", "list", "iterator")]
     front += [(c15.unit_hex_bounded, (6 if tier == "thorough" else 5, p, 8)) for p in range(8)]  # bounded: every short hex text from four kinds of source
     from checks import c19
